@@ -2,6 +2,7 @@
    Statements only; proofs in theories/EnvProofs.v.  The hidden game v and its normalised copy nv drawn at each reset
    are inputs of the state machine. *)
 From ICG Require Import Prelude Bits Table Bounds GameOps FoldLemmas SASound SAKnowledge SAMKnowledge Shapley Exploit Norms Env EnvProofs GapsAlongReveals.
+From ICG Require Import RegistryTypes gen.Registry gen.RegistryLinkProps.
 From Coq Require Import ZArith.
 
 (* After ANY sequence of reset / step / unstep calls that starts with a reset and in which every call succeeds
@@ -67,6 +68,13 @@ Theorem C09_reward_never_positive :
     ev_gap g n t' = Some x -> 0 <= x.
 Proof. exact reward_never_positive. Qed.
 Print Assumptions C09_reward_never_positive.
+
+(* every registered computer and gap function of /repo (regenerated on every run) is an object of the model *)
+Theorem C09_registry_modelled :
+  Forall (fun kv => exists c : computer, rl_computer (snd kv) = Some c) bounds_registry
+  /\ Forall (fun kv => exists g : gapfn, rl_gap (snd kv) = Some g) gap_registry.
+Proof. exact (conj registry_bounds_modelled registry_gaps_modelled). Qed.
+Print Assumptions C09_registry_modelled.
 
 Example C09_trace_nontrivial :
   let e0 := ev_make 3 CCached GExploit (Some 2%nat) [1; 2; 4]%N in
